@@ -334,7 +334,7 @@ def render_text(items):
 
 
 PRINT_INTS = [0, 7, 10, 255, 256, 4660, 65535, 1000000, 2147483647]
-PRINT_BYTES = [97, 0, 9, 10, 13, 92, 32, 126, 127, 255, 34, 65, 39, 66, 39, 98]
+PRINT_BYTES = [97, 0, 9, 34, 39, 10, 13, 92, 39, 32, 126, 127, 255, 39, 34, 65, 66, 39, 98]
 
 
 def repayload_for_print(env, t, walk, salt=0):
